@@ -51,6 +51,7 @@ class TlcResult:
         self.rc = rc
         self.out = out
         self.wall = wall
+        self._values = None
         m = _STATS.findall(out)
         self.generated = int(m[-1][0]) if m else 0
         self.distinct = int(m[-1][1]) if m else 0
@@ -59,9 +60,33 @@ class TlcResult:
         self.invariant_violated = 'is violated' in out
         self.error = ('Error:' in out) and not self.invariant_violated
 
+    def values(self):
+        """PrintT values (tuples), with TLC's multi-line pretty printing re-joined."""
+        if self._values is not None:
+            return self._values
+        vals = []
+        cur = None
+        depth = 0
+        for l in self.out.splitlines():
+            if cur is None:
+                if l.startswith('<<'):
+                    cur = l
+                    depth = l.count('<<') - l.count('>>')
+                    if depth <= 0:
+                        vals.append(cur)
+                        cur = None
+            else:
+                cur += ' ' + l.strip()
+                depth += l.count('<<') - l.count('>>')
+                if depth <= 0:
+                    vals.append(cur)
+                    cur = None
+        self._values = vals
+        return vals
+
     def lines(self, tag):
-        pref = '<<"%s"' % tag
-        return [l for l in self.out.splitlines() if l.startswith(pref)]
+        pref = re.compile(r'^<<\s*"%s"' % tag)
+        return [l for l in self.values() if pref.match(l)]
 
 
 def run_tlc(module, cfg_text, workdir, env=None, workers=1, extra=(), timeout=3600,
